@@ -283,6 +283,8 @@ def _guess_sender_key(
     if isinstance(key, KeySet):
         headers = recipient.headers()
         skid = headers.get('skid')
+        if "skid" in headers and not isinstance(skid, str):
+            raise ValueError('"skid" in header must be a str')
         if skid:
             return key.get_by_kid(skid)  # type: ignore[return-value]
         if use_random:
